@@ -199,7 +199,8 @@ def run(ctx):
         if size >= 2:
             # two malformed rows whose lengths add up to the right total (one cell too many, one too few)
             shapes += [("rows-cancel", (0, size - 1), 1), ("rows-cancel", (size - 1, 0), 1)]
-        for kind, bad_row, delta in shapes:
+        shapes = [(k_, b_, d_, "list") for k_, b_, d_ in shapes] + [(k_, b_, d_, "tuple") for k_, b_, d_ in shapes if k_ == "row"]      # rows given as lists / as tuples
+        for kind, bad_row, delta, rowform in shapes:
             try:
                 V, P, W = world(h, names + ["e"])
                 rows = [[1] * size for _ in range(size)]
@@ -211,7 +212,7 @@ def run(ctx):
                     rows[bad_row] = [1] * (size + delta)
                 else:
                     vnames = names[:size + delta] if delta < 0 else names + ["e"]
-                mat = Seq([Seq(r, "list") for r in rows], "list")
+                mat = Seq([Seq(r, rowform) for r in rows], rowform)
                 vs = Seq([V[x] for x in vnames], "list")
                 pre = snapshot(V)
                 out = h.call(fmat, mat, vs)
@@ -228,9 +229,9 @@ def run(ctx):
                 why = "ValueError raised after vertices were already touched: " + "; ".join(f"{k}: {pre[k]} -> {post[k]}" for k in pre if pre[k] != post[k])[:300]
             elif [o for o in h.w.alloc if isinstance(o, Obj) and "_vertices" in o.fields and o.fields["_vertices"].items and o.cls.name != "Universe" and not o.cls.name.endswith("Laws")]:
                 pass
-            res.ob(why is None, sig=("malformed", size, kind, bad_row, delta))
+            res.ob(why is None, sig=("malformed", size, kind, bad_row, delta, rowform))
             if why:
-                res.violation("REJECT-WHOLE", MAT_FN, f"malformed={kind},bad-row-is-first={bad_row == 0}", f"matrix of side {size} with {'row ' + str(bad_row) + ' of length ' + str(size + delta) if kind == 'row' else ('rows ' + str(bad_row) + ' one cell too long / too short' if kind == 'rows-cancel' else 'side array of length ' + str(size + delta))}: {why}",
+                res.violation("REJECT-WHOLE", MAT_FN, f"malformed={kind},bad-row-is-first={bad_row == 0}" + (",rows-are-tuples" if rowform == "tuple" else ""), f"matrix of side {size} with {'row ' + str(bad_row) + ' of length ' + str(size + delta) if kind == 'row' else ('rows ' + str(bad_row) + ' one cell too long / too short' if kind == 'rows-cancel' else 'side array of length ' + str(size + delta))}: {why}",
                               replay=f"from edgegraph.structure import *\nfrom edgegraph.builder.adjmatrix import load_adj_matrix\nvs = [Vertex() for _ in range({size})]\nm = [[1]*{size} for _ in range({size})]\n" + (f"m[{bad_row}] = [1]*{size + delta}\n" if kind == "row" else (f"m[{bad_row[0]}] = [1]*{size + 1}; m[{bad_row[1]}] = [1]*{size - 1}\n" if kind == "rows-cancel" else f"vs = vs[:{size + delta}] if {delta} < 0 else vs + [Vertex()]\n")) + "try:\n    load_adj_matrix(m, vs)\nexcept ValueError: pass\nprint([v.universes for v in vs])")
     res.rule("BUILD-MATRIX", m)
     # ---------------- sizes the tree names (and a default one beyond the small scope): a key with n listed neighbours, n keys (some
